@@ -6,11 +6,13 @@ interpreter tools/irsem_py.py.
     gen_function(rng, size=3, features=None, avoid=()) -> (ir.Module, 'f', [param types])
     gen_args(rng, param_types) -> [int]
     compile_module(module, fname) -> Image          run_image(image, args, ret_type) -> (status, x)
-    compile_and_run(module, fname, args, param_types, ret_type) -> ('ok', v)|('compile_error', s)|('exec_error', s)
+    compile_and_run(module, fname, args, param_types, ret_type)
+                                  -> ('ok', v) | ('compile_error', text) | ('exec_error', text)
     reference(module, fname, args) -> ('ok', v) | ('skip', reason)
     search(rng, n_modules, args_per_module=6, size=3, features=None, on_mismatch=None, avoid=()) -> stats
-    replay_ir(ir_text, args, ret_type=None) -> (actual, expected)      (the two status tuples)
-    classify(rec) -> str      families(rec) -> sorted list of known defect families syntactically present
+    replay_ir(ir_text, args, ret_type=None) -> (actual, expected)      (the two status tuples above)
+    classify(rec) -> str      families(rec) -> known defect families whose trigger occurs in rec's IR
+    support() -> constructs the back-end compiles at all (probed; unsupported ones are never generated)
 
 features ⊆ FEATURES; avoid ⊆ AVOID switches off the four known ppci riscv defect families:
   inplace                   Unop / widening Cast / signed sub-word >> overwrite their operand register
@@ -35,94 +37,119 @@ BINOPS = ['+', '-', '*', '/', '%', '&', '|', '^', '<<', '>>', 'rol', 'ror']
 CONSTS = [0, 1, 2, 3, 5, 7, 10, -1, -2, -3, -5000, 0x12345678, 2047, 2048, -2048, -2049, 4095, 4096,
           127, 128, -128, -129, 255, 256, 32767, 32768, -32768, 65535, 65536, 100000, -100000,
           0x7fffffff, -0x80000000, 0x80000000, 0xffffffff, 0xfffff800, 0xffff0000]
+ARGS = [0, 1, 2, -1, -2, 127, 128, 255, 256, 2047, 2048, -2048, -2049, 32767, 32768, 65535, 65536,
+        0x7fffffff, 0x80000000, 0x12345678]
 LAYOUT = """
 MEMORY code LOCATION=0x10000 SIZE=0x40000 { SECTION(code) }
 MEMORY ram LOCATION=0x100000 SIZE=0x40000 { SECTION(data) }
 """
 STOP, STACK_TOP, STEPS, FUEL = 0xfffffff0, 0x7ffff0, 200000, 400
-_ARCH = []
-
-
-def arch():
-    if not _ARCH:
-        _ARCH.append(api.get_arch('riscv'))
-    return _ARCH[0]
+_CACHE = {}
 
 
 def trange(t):
     return (-(1 << (t.bits - 1)), (1 << (t.bits - 1)) - 1) if t.signed else (0, (1 << t.bits) - 1)
 
 
-def wrap(t, z):
-    return irsem_py.wrap_bits(t.bits, t.signed, z)
-
-
 def wide(t):
     return ir.i32 if t.signed else ir.u32
 
 
-# ---------------------------------------------------------------- back-end support table (probed)
-def _tiny(rt, params, body):
-    m = ir.Module('m')
-    f = ir.Function('f', ir.Binding.GLOBAL, rt)
-    m.add_function(f)
-    ps = [ir.Parameter('p%d' % i, t) for i, t in enumerate(params)]
-    for p in ps:
-        f.add_parameter(p)
-    blocks = [ir.Block('b%d' % i) for i in range(2)]
-    for b in blocks:
-        f.add_block(b)
-    f.entry = blocks[0]
-    cur = [blocks[0]]
-
-    def add(i):
-        cur[0].add_instruction(i)
-        return i
-    r = body(add, ps, blocks, cur)
-    add(ir.Return(r))
-    if blocks[1].is_empty:
-        f.remove_block(blocks[1])
-    verify_module(m)
-    return m
+def _negconst(i):
+    """Binop hitting an `op reg, imm12` pattern whose condition forgets the lower bound"""
+    big = [isinstance(x, ir.Const) and isinstance(x.value, int) and x.value < -2048 for x in (i.a, i.b)]
+    return i.ty is ir.i32 and (i.operation in ('+', '|', '^') and any(big) or i.operation == '&' and big[1])
 
 
-_SUPPORT = {}
+# ---------------------------------------------------------------- compile / run / reference
+class Image:
+    def __init__(self, mem=None, entry=0, error=None):
+        self.mem, self.entry, self.error = mem, entry, error
+
+
+def compile_module(module, fname):
+    try:
+        if 'arch' not in _CACHE:
+            _CACHE['arch'] = api.get_arch('riscv')
+        obj = api.ir_to_object([module], _CACHE['arch'])
+        lo = api.link([obj], layout=io.StringIO(LAYOUT))
+        mem = {}
+        for img in lo.images:
+            for i, b in enumerate(img.data):
+                mem[img.address + i] = b
+        return Image(mem, lo.get_symbol_value(fname))
+    except Exception as ex:                       # any ppci failure on verifier-clean IR
+        return Image(error='%s: %s' % (type(ex).__name__, str(ex)[:300]))
+
+
+def run_image(image, args, ret_type):
+    if image.error is not None:
+        return ('compile_error', image.error)
+    if len(args) > 6:
+        return ('exec_error', 'more than 6 arguments')
+    s = RV.State(pc=image.entry, mem=image.mem)
+    s.regs[1], s.regs[2] = STOP, STACK_TOP
+    for r, a in zip(range(12, 18), args):
+        s.regs[r] = RV.u32(a)
+    try:
+        RV.run(s, STOP, STEPS)
+    except Exception as ex:
+        return ('exec_error', '%s: %s' % (type(ex).__name__, str(ex)[:200]))
+    return ('ok', irsem_py.wrap_bits(ret_type.bits, ret_type.signed, s.regs[10]))
+
+
+def _func(module, fname):
+    return [f for f in module.functions if f.name == fname][0]
+
+
+def compile_and_run(module, fname, args, param_types=None, ret_type=None):
+    rt = _func(module, fname).return_ty if ret_type is None else ret_type
+    return run_image(compile_module(module, fname), args, rt)
+
+
+def reference(module, fname, args):
+    cfg = (4,) + tuple(irsem_py.DEFAULT_CFG[1:])
+    out = irsem_py.run_main(module, fname, list(args), fuel=FUEL, cfg=cfg)
+    if isinstance(out, irsem_py.OkV) and isinstance(out.v[0], int):
+        return ('ok', out.v[0])
+    return ('skip', repr(out)[:80])
+
+
+def module_text(module):
+    f = io.StringIO()
+    print_module(module, file=f, verify=False)
+    return f.getvalue()
+
+
+def replay_ir(ir_text, args, ret_type=None, fname=None):
+    m = read_module(io.StringIO(ir_text))
+    fname = fname or m.functions[0].name
+    if isinstance(ret_type, str):
+        ret_type = [t for t in TYPES if t.name == ret_type][0]
+    return compile_and_run(m, fname, args, None, ret_type), reference(m, fname, args)
 
 
 def support():
     """set of constructs the back-end can compile at all: (op, tname) for Binop, ('neg'|'inv', tname),
-    ('cast', src, dst), ('cjmp'|'load'|'store', tname) — found by compiling one-instruction functions"""
-    if _SUPPORT:
-        return _SUPPORT['s']
-
-    def mem(t, store):
-        def body(add, p, blocks, cur):
-            a = add(ir.AddressOf(add(ir.Alloc('a', 8, 4)), 'pa'))
-            if store:
-                add(ir.Store(p[0], a))
-                return p[0]
-            return add(ir.Load(a, 'l', t))
-        return body
-
-    def cj(add, p, blocks, cur):
-        add(ir.CJump(p[0], '<', p[1], blocks[1], blocks[1]))
-        cur[0] = blocks[1]
-        return p[0]
+    ('cast', src, dst), ('cjmp'|'mem', tname) — found by compiling one-instruction functions"""
+    if 'sup' in _CACHE:
+        return _CACHE['sup']
+    tmpl = 'module m;\nglobal function %s f(%s p0, %s p1) {\n  b0: {\n    %s\n  }\n%s}\n'
     s = set()
     for t in TYPES:
-        cand = [((op, t.name), [t, t], lambda add, p, *_, op=op: add(ir.Binop(p[0], op, p[1], 'r', t)))
-                for op in BINOPS]
-        cand += [((k, t.name), [t], lambda add, p, *_, op=op: add(ir.Unop(op, p[0], 'r', t)))
-                 for k, op in (('neg', '-'), ('inv', '~'))]
-        cand += [(('cjmp', t.name), [t, t], cj), (('load', t.name), [t], mem(t, False)),
-                 (('store', t.name), [t], mem(t, True))]
-        for key, params, body in cand:
-            if compile_module(_tiny(t, params, body), 'f').error is None:
+        T = t.name
+        probes = [((op, T), T, '%s r = p0 %s p1; return r;' % (T, op), '') for op in BINOPS]
+        probes += [((k, T), T, '%s r = %s p0; return r;' % (T, op), '') for k, op in (('neg', '-'), ('inv', '~'))]
+        probes += [(('cast', src.name, T), src.name, '%s r = cast p0; return r;' % T, '') for src in TYPES]
+        probes += [(('cjmp', T), T, 'cjmp p0 < p1 ? b1 : b1;', '  b1: {\n    return p0;\n  }\n'),
+                   (('mem', T), T, 'blob<8:4> a = alloc 8 bytes aligned at 4; ptr pa = &a; store p0, pa; '
+                                   '%s r = load pa; return r;' % T, '')]
+        for key, S, body, rest in probes:
+            m = read_module(io.StringIO(tmpl % (T, S, S, body, rest)))
+            verify_module(m)
+            if compile_module(m, 'f').error is None:
                 s.add(key)
-        for src in TYPES:
-            if compile_module(_tiny(t, [src], lambda add, p, *_: add(ir.Cast(p[0], 'r', t))), 'f').error is None:
-                s.add(('cast', src.name, t.name))
-    _SUPPORT['s'] = s
+    _CACHE['sup'] = s
     return s
 
 
@@ -137,16 +164,21 @@ class _Env:
 
 
 class _Gen:
+    """Register classes (only when 'inplace' is avoided): every value belongs to the class of values
+    living in the same ppci virtual register (truncating/same-size casts return their operand's
+    register).  An overwriting instruction is applied to v directly only if nothing else reads v's class
+    (ppci evaluates single-use expressions at their use, i.e. possibly after a later overwrite), v is
+    (re)defined in the current loop iteration and is not an operand still waiting for its instruction
+    (`hold`); otherwise to a private copy `v + 0`.  Afterwards the whole class is dead."""
     MEMSIZE = 16
 
     def __init__(self, rng, size, feats, avoid):
         self.rng, self.feats, self.avoid, self.sup = rng, feats, avoid, support()
         self.types = list(TYPES) if 'subword' in feats else [ir.i32, ir.u32]
-        self.track = 'inplace' in avoid
-        self.nosub = 'subword_shr_div_cmp' in avoid
-        self.n = self.nblocks = self.ncls = self.loop = self.nloops = 0
-        self.cls, self.cls_loop, self.dead, self.pinned, self.used, self.seen = {}, {}, set(), set(), set(), set()
-        self.hold, self.members = set(), {}
+        self.track, self.nosub = 'inplace' in avoid, 'subword_shr_div_cmp' in avoid
+        self.n = self.ncls = self.loop = self.nloops = 0
+        self.cls, self.cls_loop, self.members = {}, {}, {}
+        self.dead, self.pinned, self.used, self.seen, self.hold = set(), set(), set(), set(), set()
         self.budget = 6 + 6 * size
         self.m = ir.Module('m')
         self.f = ir.Function('f', ir.Binding.GLOBAL, rng.choice(self.types))
@@ -161,7 +193,8 @@ class _Gen:
         self.cur = self.block('entry')
         self.base = None
         if 'mem' in feats and rng.random() < 0.6:
-            self.base = self.emit(ir.AddressOf(self.emit(ir.Alloc(self.nm('blk'), self.MEMSIZE, 4)), self.nm('base')))
+            blk = self.emit(ir.Alloc(self.nm('blk'), self.MEMSIZE, 4))
+            self.base = self.emit(ir.AddressOf(blk, self.nm('base')))
         for _ in range(rng.randint(1, 1 + size)):
             self.segment(env, 0)
         self.finish(env)
@@ -173,24 +206,21 @@ class _Gen:
         return '%s%d' % (hint, self.n)
 
     def block(self, hint):
-        b = ir.Block('%s%d' % (hint, self.nblocks))
-        self.nblocks += 1
+        b = ir.Block(self.nm(hint))
         self.f.add_block(b)
-        if self.f.entry is None:
-            self.f.entry = b
+        self.f.entry = b if self.f.entry is None else self.f.entry
         return b
 
     def newcls(self, v, loop=None):
         self.ncls += 1
-        self.cls[id(v)] = self.ncls
-        self.members[self.ncls] = [v]
+        self.cls[id(v)], self.members[self.ncls] = self.ncls, [v]
         self.cls_loop[self.ncls] = self.loop if loop is None else loop
 
     def emit(self, ins, alias=None):
-        """alias: value whose machine register the result shares (truncating / same-size casts)"""
+        """alias: value whose machine register the result shares"""
         self.cur.add_instruction(ins)
         if isinstance(ins, ir.Value):
-            if alias is not None and id(alias) in self.cls:
+            if alias is not None:
                 self.cls[id(ins)] = self.cls[id(alias)]
                 self.members[self.cls[id(alias)]].append(ins)
             else:
@@ -208,20 +238,18 @@ class _Gen:
         return ins
 
     def fresh(self, v):
-        return self.emit(ir.Binop(v, '+', self.const(v.ty, 0), self.nm('cp'), v.ty))
+        if isinstance(v, ir.Const):
+            return self.const(v.ty, v.value)
+        return self.bin(v, '+', self.const(v.ty, 0), 'cp', True)
 
     def victim(self, v):
         """v, or a private copy of it when v has to stay intact (only when 'inplace' is avoided)"""
         c = self.cls[id(v)]
-        if self.track and (id(v) in self.pinned or c in self.hold or self.cls_loop[c] != self.loop or self.busy(c)):
+        mem = self.members[c]
+        if self.track and (id(v) in self.pinned or c in self.hold or self.cls_loop[c] != self.loop
+                           or any(not any(u is m for m in mem) for x in mem for u in x.used_by)):
             return self.fresh(v)
         return v
-
-    def busy(self, c):
-        """some instruction already reads the register of class c: ppci evaluates single-use expressions
-        at their use, i.e. possibly after a later instruction overwrote that register"""
-        mem = self.members[c]
-        return any(not any(u is m for m in mem) for v in mem for u in v.used_by)
 
     def ok(self, v):
         return self.cls[id(v)] not in self.dead and ('multiuse' in self.feats or id(v) not in self.used)
@@ -259,7 +287,7 @@ class _Gen:
         self.seen.add('casts')
         if t.bits > s.bits:
             if s.signed and not t.signed and 'signed_to_unsigned_widen' in self.avoid:
-                return self.cast(self.cast(v, wide(s) if t.bits == 32 else ir.i16), t)
+                return self.cast(self.cast(v, ir.i32 if t.bits == 32 else ir.i16), t)
             v = self.victim(v)
             return self.clobber(v, ir.Cast(v, self.nm('w'), t))
         return self.emit(ir.Cast(v, self.nm('t'), t), alias=v)
@@ -269,14 +297,13 @@ class _Gen:
         if self.track and self.cls[id(a)] == self.cls[id(b)]:
             b = self.fresh(b)
         self.hold -= {self.cls[id(a)], self.cls[id(b)]}
-        w = wide(a.ty)
-        return self.cast(a, w), self.cast(b, w)
+        return self.cast(a, wide(a.ty)), self.cast(b, wide(a.ty))
 
-    def safe_op(self, t, op, a, b):
-        if t is ir.i32 and 'negconst' in self.avoid and op in ('+', '&', '|', '^') and any(
-                isinstance(x, ir.Const) and x.value < -2048 for x in (a, b)):
-            return self.rng.choice(['-', '*'])
-        return op
+    def bin(self, a, op, b, hint='b', keep=False):
+        i = ir.Binop(a, op, b, self.nm(hint), a.ty)
+        if not keep and 'negconst' in self.avoid and _negconst(i):
+            i = ir.Binop(a, self.rng.choice(['-', '*']), b, i.name, a.ty)
+        return self.emit(i)
 
     # -- straight-line code
     def binop(self, env, t):
@@ -284,46 +311,44 @@ class _Gen:
         op = rng.choice([o for o in BINOPS if (o, wide(t).name) in sup])
         a = self.pick(env, t)
         lo, hi = trange(t)
-        if op in ('/', '%'):
+        if op in ('/', '%'):                       # divisor never 0 or -1
             if rng.random() < 0.4:
                 b = self.const(t, rng.choice([1, 2, 3, 7, 10, hi] + ([-2, -3, -7, lo] if t.signed else [])))
             elif t.signed:
-                m = self.emit(ir.Binop(self.pick(env, t), '&', self.const(t, hi >> 1), self.nm('dm'), t))
-                b = self.emit(ir.Binop(m, '+', self.const(t, 1), self.nm('d'), t))
+                b = self.bin(self.pick(env, t), '&', self.const(t, hi >> 1), 'dm', True)
+                b = self.bin(b, '+', self.const(t, 1), 'd', True)
             else:
-                b = self.emit(ir.Binop(self.pick(env, t), '|', self.const(t, 1), self.nm('d'), t))
-        elif op in ('<<', '>>', 'rol', 'ror'):
+                b = self.bin(self.pick(env, t), '|', self.const(t, 1), 'd', True)
+        elif op in ('<<', '>>', 'rol', 'ror'):     # amount in [0, bits)
             if rng.random() < 0.6:
                 b = self.const(t, rng.randint(0, t.bits - 1))
             else:
-                b = self.emit(ir.Binop(self.pick(env, t), '&', self.const(t, t.bits - 1), self.nm('sh'), t))
+                b = self.bin(self.pick(env, t), '&', self.const(t, t.bits - 1), 'sh', True)
         elif 'multiuse' in self.feats and rng.random() < 0.15:
             b = a
         else:
             b = self.pick(env, t)
         narrow = t.bits < 32
         if narrow and ((op, t.name) not in sup or (self.nosub and op in ('>>', '/', '%'))):
-            if 'casts' not in self.feats:
-                op = rng.choice(['+', '-', '^'])
-            else:
+            if 'casts' in self.feats:              # do it in 32 bits
                 a, b = self.widen2(a, b)
                 self.seen.add('widened:' + op)
-                return self.cast(self.emit(ir.Binop(a, op, b, self.nm('wb'), a.ty)), t)
-        op = self.safe_op(t, op, a, b)
+                return self.cast(self.bin(a, op, b, 'wb'), t)
+            op = rng.choice(['+', '-', '^'])
         self.seen.add('arith')
-        if narrow and t.signed and op == '>>':            # SHRI8/SHRI16 sign-extend a's register in place
+        if narrow and t.signed and op == '>>':     # SHRI8/SHRI16 sign-extend a's register in place
             self.hold.discard(self.cls[id(a)])
             a = self.victim(a)
             return self.clobber(a, ir.Binop(a, op, b, self.nm('b'), t))
-        return self.emit(ir.Binop(a, op, b, self.nm('b'), t))
+        return self.bin(a, op, b)
 
     def unop(self, env, t):
-        ops = [(k, o) for k, o in (('neg', '-'), ('inv', '~')) if (k, t.name) in self.sup]
+        ops = [o for k, o in (('neg', '-'), ('inv', '~')) if (k, t.name) in self.sup]
         if not ops:
             return self.binop(env, t)
         a = self.victim(self.pick(env, t, hold=False))
         self.seen.add('unop')
-        return self.clobber(a, ir.Unop(self.rng.choice(ops)[1], a, self.nm('u'), t))
+        return self.clobber(a, ir.Unop(self.rng.choice(ops), a, self.nm('u'), t))
 
     def ptr_at(self, off):
         if off == 0:
@@ -332,14 +357,16 @@ class _Gen:
         return self.emit(ir.Binop(self.base, '+', o, self.nm('p'), ir.ptr))
 
     def memop(self, env):
+        """store, or load of bytes that were certainly stored before (the real stack is not zeroed)"""
         rng = self.rng
-        loads = [(t, o) for t in self.types if ('load', t.name) in self.sup
-                 for o in range(0, self.MEMSIZE, t.bits // 8) if set(range(o, o + t.bits // 8)) <= env.init]
+        ts = [t for t in self.types if ('mem', t.name) in self.sup]
+        loads = [(t, o) for t in ts for o in range(0, self.MEMSIZE, t.bits // 8)
+                 if set(range(o, o + t.bits // 8)) <= env.init]
         self.seen.add('mem')
         if loads and rng.random() < 0.5:
             t, o = rng.choice(loads)
             return self.emit(ir.Load(self.ptr_at(o), self.nm('ld'), t))
-        t = rng.choice([t for t in self.types if ('store', t.name) in self.sup])
+        t = rng.choice(ts)
         o = rng.randrange(0, self.MEMSIZE, t.bits // 8)
         self.emit(ir.Store(self.pick(env, t), self.ptr_at(o)))
         env.init |= set(range(o, o + t.bits // 8))
@@ -365,15 +392,11 @@ class _Gen:
             elif 'arith' in feats:
                 v = self.binop(env, t)
             else:
-                v = self.emit(ir.Binop(self.pick(env, t), '+', self.pick(env, t), self.nm('b'), t))
+                v = self.bin(self.pick(env, t), '+', self.pick(env, t))
             if v is not None:
                 env.vals.append(v)
 
     # -- control flow
-    def cmp_type(self):
-        ts = [t for t in self.types if ('cjmp', t.name) in self.sup and not (self.nosub and t.bits < 32)]
-        return self.rng.choice(ts)
-
     def segment(self, env, depth):
         rng = self.rng
         kinds = ['straight'] + [k for k in ('diamond', 'loop') if k in self.feats and depth < 2]
@@ -382,14 +405,14 @@ class _Gen:
         if kind == 'straight':
             return self.straight(env, rng.randint(1, 4))
         self.seen.add(kind)
+        cmp_types = [t for t in self.types if ('cjmp', t.name) in self.sup]
         if kind == 'diamond':
-            t = rng.choice([t for t in self.types if ('cjmp', t.name) in self.sup])
+            t = rng.choice(cmp_types)
+            if t.bits < 32 and self.nosub and 'casts' not in self.feats:
+                t = wide(t)
             a, b = self.pick(env, t), self.pick(env, t)
             if t.bits < 32 and self.nosub:
-                if 'casts' in self.feats:
-                    a, b = self.widen2(a, b)
-                else:
-                    a, b = self.const(ir.i32), self.pick(env, ir.i32) if ir.i32 in self.types else self.const(ir.i32)
+                a, b = self.widen2(a, b)
             yes, no, join = self.block('then'), self.block('else'), self.block('join')
             self.emit(ir.CJump(a, rng.choice(ir.CJump.conditions), b, yes, no))
             pt, outs = rng.choice(self.types), []
@@ -410,12 +433,13 @@ class _Gen:
             env.init |= outs[0][2] & outs[1][2]
             env.vals.append(ph)
             return
-        # counted loop, trip count <= 7, up or down counting
-        t, at = self.cmp_type(), rng.choice(self.types)
+        # counted loop, trip count <= 7, counting up or down, with an accumulator
+        t = rng.choice([t for t in cmp_types if not (self.nosub and t.bits < 32)])
+        at = rng.choice(self.types)
         if rng.random() < 0.5:
             n = self.const(t, rng.randint(0, 7))
         else:
-            n = self.emit(ir.Binop(self.pick(env, t), '&', self.const(t, 7), self.nm('n'), t))
+            n = self.bin(self.pick(env, t), '&', self.const(t, 7), 'n', True)
         zero, one, acc0 = self.const(t, 0), self.const(t, 1), self.pick(env, at)
         pre, head, body, done = self.cur, self.block('head'), self.block('body'), self.block('done')
         self.emit(ir.Jump(head))
@@ -430,10 +454,10 @@ class _Gen:
         self.straight(e2, rng.randint(1, 3))
         if rng.random() < 0.3:
             self.segment(e2, depth + 1)
-        ops = [o for o in ('+', '^', '-', '*') if (o, at.name) in self.sup]
         self.hold.clear()
-        acc2 = self.emit(ir.Binop(acc, rng.choice(ops), self.pick(e2, at), self.nm('acc'), at))
-        i2 = self.emit(ir.Binop(i, '+' if up else '-', one, self.nm('i'), t))
+        ops = [o for o in ('+', '^', '-', '*') if (o, at.name) in self.sup]
+        acc2 = self.bin(acc, rng.choice(ops), self.pick(e2, at), 'acc')
+        i2 = self.bin(i, '+' if up else '-', one, 'i')
         self.emit(ir.Jump(head))
         i.set_incoming(pre, zero if up else n)
         i.set_incoming(self.cur, i2)
@@ -447,27 +471,21 @@ class _Gen:
         live = [v for v in env.vals if self.ok(v) and ('casts' in self.feats or v.ty is rt)]
         self.hold.clear()
         r = None
-        for v in live[-rng.randint(1, 3):] or [self.const(rt)]:
-            if not self.ok(v) or self.cls[id(v)] in self.hold:
-                continue
-            v = self.use(v) if v.ty is rt else self.cast(self.use(v), rt)
-            r = v if r is None else self.emit(ir.Binop(r, self.safe_op(rt, rng.choice(['+', '^']), r, v), v,
-                                                       self.nm('r'), rt))
-            self.hold = {self.cls[id(r)]}
+        for v in live[-rng.randint(1, 3):]:
+            if self.ok(v) and self.cls[id(v)] not in self.hold:
+                v = self.use(v) if v.ty is rt else self.cast(self.use(v), rt)
+                r = v if r is None else self.bin(r, rng.choice(['+', '^']), v, 'r')
+                self.hold = {self.cls[id(r)]}
         self.emit(ir.Return(r if r is not None else self.const(rt)))
 
 
-def _norm(names, allowed, what):
-    names = tuple(allowed) if names is None else tuple(names)
-    bad = [x for x in names if x not in allowed]
-    if bad:
-        raise ValueError('unknown %s: %r' % (what, bad))
-    return names
-
-
 def gen_function(rng, size=3, features=None, avoid=()):
-    g = _Gen(rng, size, _norm(features, FEATURES, 'features'), _norm(avoid, AVOID, 'avoid'))
-    g.m.e2e_seen = g.seen
+    features = FEATURES if features is None else tuple(features)
+    bad = [x for x in features if x not in FEATURES] + [x for x in avoid if x not in AVOID]
+    if bad:
+        raise ValueError('unknown features/avoid: %r' % bad)
+    g = _Gen(rng, size, features, tuple(avoid))
+    g.m.e2e_seen = g.seen                  # kinds of constructs actually generated (for statistics)
     return g.m, 'f', g.ptypes
 
 
@@ -475,124 +493,69 @@ def gen_args(rng, param_types):
     out = []
     for t in param_types:
         lo, hi = trange(t)
-        if rng.random() < 0.7:
-            pool = [c for c in (0, 1, 2, -1, -2, lo, lo + 1, hi, hi - 1, 127, 128, 255, 256, 2047, 2048, -2048,
-                                -2049, 32767, 32768, 65535, 65536, 0x7fffffff, 0x80000000, 0x12345678) if lo <= c <= hi]
-            out.append(rng.choice(pool))
-        else:
-            out.append(rng.randint(lo, hi))
+        pool = [c for c in ARGS + [lo, lo + 1, hi, hi - 1] if lo <= c <= hi]
+        out.append(rng.choice(pool) if rng.random() < 0.7 else rng.randint(lo, hi))
     return out
 
 
-# ---------------------------------------------------------------- compile / run / reference
-class Image:
-    def __init__(self, mem=None, entry=0, error=None):
-        self.mem, self.entry, self.error = mem, entry, error
-
-
-def compile_module(module, fname):
-    try:
-        obj = api.ir_to_object([module], arch())
-        lo = api.link([obj], layout=io.StringIO(LAYOUT))
-        mem = {}
-        for img in lo.images:
-            for i, b in enumerate(img.data):
-                mem[img.address + i] = b
-        return Image(mem, lo.get_symbol_value(fname))
-    except Exception as ex:                       # any ppci failure on verifier-clean IR
-        return Image(error='%s: %s' % (type(ex).__name__, str(ex)[:300]))
-
-
-def run_image(image, args, ret_type):
-    if image.error is not None:
-        return ('compile_error', image.error)
-    if len(args) > 6:
-        return ('exec_error', 'more than 6 arguments')
-    s = RV.State(pc=image.entry, mem=image.mem)
-    s.regs[1], s.regs[2] = STOP, STACK_TOP
-    for r, a in zip(range(12, 18), args):
-        s.regs[r] = RV.u32(a)
-    try:
-        RV.run(s, STOP, STEPS)
-    except Exception as ex:
-        return ('exec_error', '%s: %s' % (type(ex).__name__, str(ex)[:200]))
-    return ('ok', wrap(ret_type, s.regs[10]))
-
-
-def compile_and_run(module, fname, args, param_types=None, ret_type=None):
-    if ret_type is None:
-        ret_type = _func(module, fname).return_ty
-    return run_image(compile_module(module, fname), args, ret_type)
-
-
-def _func(module, fname):
-    return [f for f in module.functions if f.name == fname][0]
-
-
-def reference(module, fname, args):
-    cfg = (4,) + tuple(irsem_py.DEFAULT_CFG[1:])
-    out = irsem_py.run_main(module, fname, list(args), fuel=FUEL, cfg=cfg)
-    if isinstance(out, irsem_py.OkV) and isinstance(out.v[0], int):
-        return ('ok', out.v[0])
-    return ('skip', repr(out)[:80])
-
-
-def module_text(module):
-    f = io.StringIO()
-    print_module(module, file=f, verify=False)
-    return f.getvalue()
-
-
-def replay_ir(ir_text, args, ret_type=None, fname=None):
-    m = read_module(io.StringIO(ir_text))
-    fname = fname or m.functions[0].name
-    rt = _func(m, fname).return_ty if ret_type is None else (
-        ret_type if not isinstance(ret_type, str) else [t for t in TYPES if t.name == ret_type][0])
-    return compile_and_run(m, fname, args, None, rt), reference(m, fname, args)
-
-
 # ---------------------------------------------------------------- classification
+def _root(v):
+    while isinstance(v, ir.Cast) and v.src.ty in TYPES and v.ty in TYPES and v.ty.bits <= v.src.ty.bits:
+        v = v.src
+    return v
+
+
 def _constructs(module):
     """(keys, families): constructs of the function(s) and the known defect families they may trigger"""
-    keys, fam, seen_kill = set(), set(), {}
-    for f in module.functions:
-        for b in f.blocks:
-            for i in b.instructions:
-                for u in (i.uses if hasattr(i, 'uses') else ()):
-                    if id(u) in seen_kill:
-                        fam.add('inplace')
-                if isinstance(i, ir.Binop):
-                    keys.add('%s:%s' % (i.operation, i.ty.name))
-                    if i.ty is ir.i32 and i.operation in '+&|^' and any(
-                            isinstance(x, ir.Const) and x.value < -2048 for x in (i.a, i.b)):
-                        fam.add('negconst')
-                    if i.ty.name in ('i8', 'i16', 'u8', 'u16') and i.operation in ('>>', '/', '%'):
-                        fam.add('subword_shr_div_cmp')
-                        if i.ty.signed:
-                            seen_kill[id(i.a)] = i
-                elif isinstance(i, ir.Unop):
-                    keys.add('%s:%s' % ('neg' if i.operation == '-' else 'inv', i.ty.name))
-                    seen_kill[id(i.a)] = i
-                elif isinstance(i, ir.Cast):
-                    s, t = i.src.ty, i.ty
-                    keys.add('cast:%s>%s' % (s.name, t.name))
-                    if s in TYPES and t in TYPES and t.bits > s.bits:
-                        seen_kill[id(i.src)] = i
-                        if s.signed and not t.signed:
-                            fam.add('signed_to_unsigned_widen')
-                    elif s in TYPES and id(i.src) in seen_kill:
-                        seen_kill[id(i)] = i
-                elif isinstance(i, ir.Const):
-                    if isinstance(i.value, int) and i.value < -2048:
-                        keys.add('const<-2048')
-                elif isinstance(i, ir.CJump):
-                    keys.add('cmp%s:%s' % (i.cond, i.a.ty.name))
-                    if i.a.ty.name in ('i8', 'i16', 'u8', 'u16'):
-                        fam.add('subword_shr_div_cmp')
-                elif isinstance(i, (ir.Load, ir.Store)):
-                    keys.add('%s:%s' % (type(i).__name__.lower(), (i.ty if isinstance(i, ir.Load) else i.value.ty).name))
-                elif isinstance(i, ir.Phi):
-                    keys.add('phi:' + i.ty.name)
+    keys, fam, users, kills = set(), set(), {}, []
+    sub = ('i8', 'i16', 'u8', 'u16')
+    for b in [b for f in module.functions for b in f.blocks]:
+        reach, todo = set(), list(b.successors)
+        while todo:
+            x = todo.pop()
+            if id(x) not in reach:
+                reach.add(id(x))
+                todo += x.successors
+        for i in b.instructions:
+            if not (isinstance(i, ir.Cast) and _root(i) is not i):
+                for u in i.uses:
+                    users.setdefault(id(_root(u)), set()).add(id(i))
+            kill = None
+            if isinstance(i, ir.Binop):
+                keys.add('%s:%s' % (i.operation, i.ty.name))
+                if _negconst(i):
+                    fam.add('negconst')
+                if i.ty.name in sub and i.operation in ('>>', '/', '%'):
+                    fam.add('subword_shr_div_cmp')
+                    kill = i.a if i.ty.signed and i.operation == '>>' else None
+            elif isinstance(i, ir.Unop):
+                keys.add('%s:%s' % ('neg' if i.operation == '-' else 'inv', i.ty.name))
+                kill = i.a
+            elif isinstance(i, ir.Cast):
+                s, t = i.src.ty, i.ty
+                keys.add('cast:%s>%s' % (s.name, t.name))
+                if s in TYPES and t in TYPES and t.bits > s.bits:
+                    kill = i.src
+                    if s.signed and not t.signed:
+                        fam.add('signed_to_unsigned_widen')
+            elif isinstance(i, ir.Const):
+                if isinstance(i.value, int) and i.value < -2048:
+                    keys.add('const<-2048')
+            elif isinstance(i, ir.CJump):
+                keys.add('cmp%s:%s' % (i.cond, i.a.ty.name))
+                if i.a.ty.name in sub:
+                    fam.add('subword_shr_div_cmp')
+            elif isinstance(i, (ir.Load, ir.Store)):
+                keys.add('%s:%s' % (type(i).__name__.lower(), (i.ty if isinstance(i, ir.Load) else i.value.ty).name))
+            elif isinstance(i, ir.Phi):
+                keys.add('phi:' + i.ty.name)
+            if kill is not None:
+                r = _root(kill)
+                kills.append(r)
+                if id(b) in reach and getattr(r, 'block', None) is not b or isinstance(r, ir.Phi):
+                    fam.add('inplace')         # re-executed overwrite of a value defined outside the loop
+    if any(len(users.get(id(r), ())) > 1 for r in kills):
+        fam.add('inplace')                     # the overwritten register has another reader
     return keys, fam
 
 
@@ -606,14 +569,14 @@ def classify(rec):
 
 
 def families(rec):
-    """known defect families whose trigger occurs syntactically ([] => candidate for a NEW family).
-    'inplace' is flagged when a value is used (textually) after a Unop/widening cast/signed sub-word >>
-    consumed it; loops re-executing such an instruction are not detected."""
+    """known defect families whose trigger occurs syntactically ([] => candidate for a NEW family)"""
     return sorted(_constructs(_rec_module(rec))[1])
 
 
 # ---------------------------------------------------------------- search
 def search(rng, n_modules, args_per_module=6, size=3, features=None, on_mismatch=None, avoid=()):
+    """on_mismatch(rec) is called once per bad module with its first bad argument vector (rec['kind'] in
+    'mismatch' | 'compile_error' | 'exec_error'); rec['all_bad'] lists every (args, expected, actual)"""
     stats = dict(modules=0, executions=0, skipped=0, compile_errors=0, exec_errors=0, mismatches=0,
                  mismatch_modules=0, features={})
     for _ in range(n_modules):
@@ -642,8 +605,7 @@ def search(rng, n_modules, args_per_module=6, size=3, features=None, on_mismatch
             elif act[1] != exp[1]:
                 stats['mismatches'] += 1
                 bad.append(('mismatch', args, exp[1], act[1], ''))
-        if any(b[0] == 'mismatch' for b in bad):
-            stats['mismatch_modules'] += 1
+        stats['mismatch_modules'] += any(b[0] == 'mismatch' for b in bad)
         if bad and on_mismatch is not None:
             kind, args, e, a, detail = bad[0]
             on_mismatch(dict(ir_text=module_text(m), args=args, expected=e, actual=a, kind=kind, detail=detail,
@@ -652,19 +614,16 @@ def search(rng, n_modules, args_per_module=6, size=3, features=None, on_mismatch
     return stats
 
 
-if __name__ == '__main__':
+if __name__ == '__main__':          # c05_e2e.py [seed] [n_modules] [all|none|avoid,avoid..] [size] [feature,..]
     import random
     import time
-    seed = int(sys.argv[1]) if len(sys.argv) > 1 else 1
-    n = int(sys.argv[2]) if len(sys.argv) > 2 else 100
-    avoid = AVOID if len(sys.argv) > 3 and sys.argv[3] == 'all' else tuple(
-        a for a in (sys.argv[3].split(',') if len(sys.argv) > 3 else []) if a and a != 'none')
-    feats = sys.argv[4].split(',') if len(sys.argv) > 4 else None
+    argv = sys.argv[1:] + [''] * 5
+    avoid = AVOID if argv[2] == 'all' else tuple(a for a in argv[2].split(',') if a and a != 'none')
     recs = []
     t0 = time.time()
-    st = search(random.Random(seed), n, features=feats, on_mismatch=recs.append, avoid=avoid)
-    print('avoid=%s  %.1f s' % (','.join(avoid) or '-', time.time() - t0))
-    print(st)
+    st = search(random.Random(int(argv[0] or 1)), int(argv[1] or 100), size=int(argv[3] or 3),
+                features=argv[4].split(',') if argv[4] else None, on_mismatch=recs.append, avoid=avoid)
+    print('avoid=%s  %.1f s\n%s' % (','.join(avoid) or '-', time.time() - t0, st))
     groups = {}
     for r in recs:
         k = r['kind'] + ' ' + ('/'.join(families(r)) or 'UNEXPLAINED')
